@@ -1,4 +1,5 @@
 import GrolProofs.ParseSafe
+import GrolProofs.ParseEnd
 import GrolProofs.Props.C16
 /-
 Bridge lexer model → parser model: the token stream the parser model consumes (`Grol.TokStream`,
@@ -152,6 +153,52 @@ theorem lexer_streamWF (nc : Grol.Token.Tok → NumClass) (input : Array UInt8) 
     rw [hk1] at hty'
     unfold Grol.Token.eolEof at hty'
     cases lineMode <;> cases hty'
+
+/-! ### the literal fact behind C03 ("exactly one newline at the end") -/
+
+/-- one call: a token of a kind that a node can print last has a non-empty literal that does not end
+in a newline -/
+theorem next_litOK (s : State) (h : Parser.lastKind (genType (next s).1.type) = true) :
+    (next s).1.lit ≠ [] ∧ (next s).1.lit.getLast? ≠ some 10 := by
+  have wf := C16.next_wf s
+  apply C16.literal_ends_line
+  unfold Grol.Token.Tok.WF at wf
+  split at wf
+  · exfalso
+    rcases wf.1 with e | e <;> (rw [e] at h; revert h; decide)
+  · rename_i hs; exact Or.inl hs
+  · rename_i hs; exact Or.inr (Or.inl hs)
+  · rename_i hs
+    refine Or.inr (Or.inr (Or.inr ⟨hs, ?_⟩))
+    rcases wf with e | e | e | e | e | e
+    · exfalso; rw [e] at h; revert h; decide
+    · exact Or.inl e
+    · exact Or.inr (Or.inl e)
+    · exfalso; rw [e] at h; revert h; decide
+    · exact Or.inr (Or.inr e)
+    · exfalso; rw [e] at h; revert h; decide
+  · rename_i hs; exact Or.inr (Or.inr (Or.inl hs))
+  · exact wf.elim
+  · exact wf.elim
+
+theorem entry_litOK (nc : Grol.Token.Tok → NumClass) (s0 : State) (j : Nat)
+    (h : Parser.lastKind (entry nc s0 j).type = true) : Printer.litOK (entry nc s0 j).tk = true := by
+  have := next_litOK (iter j s0) h
+  show (!(next (iter j s0)).1.lit.isEmpty && (next (iter j s0)).1.lit.getLast? != some 10) = true
+  obtain ⟨h1, h2⟩ := this
+  simp only [Bool.and_eq_true, Bool.not_eq_eq_eq_not, Bool.not_true, bne_iff_ne, ne_eq]
+  exact ⟨by simpa using h1, h2⟩
+
+/-- **the lexer fact of C03**, for every input and both modes: every token of the model's stream
+whose kind can end a printed line has a non-empty literal that does not end in a newline -/
+theorem lexer_litFact (nc : Grol.Token.Tok → NumClass) (input : Array UInt8) (lineMode : Bool) :
+    Parser.LitFact (tokStream nc input lineMode) := by
+  intro i h
+  by_cases hi : i ≤ markerIdx (input.size + 1) (State.new input lineMode)
+  · rw [get_le nc input lineMode i hi] at h ⊢
+    exact entry_litOK nc _ _ h
+  · rw [get_gt nc input lineMode i (by omega)] at h ⊢
+    exact entry_litOK nc _ _ h
 
 end Grol.LexStream
 
